@@ -725,23 +725,24 @@ func (f *FunctionType) key() string {
 	if f.string != "" {
 		return f.string
 	}
-	var ret string
+	// A type can have very many parameters: build the key in linear time.
+	var ret strings.Builder
 	for _, b := range f.Params {
-		ret += ValueTypeName(b)
+		ret.WriteString(ValueTypeName(b))
 	}
 	if len(f.Params) == 0 {
-		ret += "v_"
+		ret.WriteString("v_")
 	} else {
-		ret += "_"
+		ret.WriteString("_")
 	}
 	for _, b := range f.Results {
-		ret += ValueTypeName(b)
+		ret.WriteString(ValueTypeName(b))
 	}
 	if len(f.Results) == 0 {
-		ret += "v"
+		ret.WriteString("v")
 	}
-	f.string = ret
-	return ret
+	f.string = ret.String()
+	return f.string
 }
 
 // String implements fmt.Stringer.
